@@ -92,6 +92,17 @@ def embedder_op(cpu, api):
     ['set', key, value] writes a system register through the Python API (what an MCR handler or a debugger does)"""
     if isinstance(api, (list, tuple)) and api and api[0] == 'set':
         target.apply_state(cpu, {api[1]: api[2]})
+    elif isinstance(api, (list, tuple)) and api and api[0] == 'hub':
+        # the memory map is the embedder's: windows of attached controllers re-assigned in place (remap / bank switch), a device unplugged
+        ms = cpu.mem.memories
+        if api[1] == 'swap':
+            a, b = ms[api[2]], ms[api[3]]
+            a.beginning, a.end, b.beginning, b.end = b.beginning, b.end, a.beginning, a.end
+        elif api[1] == 'move':
+            a = ms[api[2]]
+            a.beginning, a.end = api[3], api[3] + (a.end - a.beginning)
+        elif api[1] == 'pop':
+            ms.pop()
     elif api == 'swap_registers':
         import copy
         cpu.registers = copy.deepcopy(cpu.registers)
